@@ -1,5 +1,5 @@
 """C20 - generation cost stays polynomial (operation counts of the two recursive traversals)."""
-from common import coq_options
+from common import coq_options, HOOKS
 
 ID = "C20"
 REQUIRES = ["Wf", "C20Spec"]
@@ -126,13 +126,21 @@ def cases(rng, tier):
 
 
 def verdict_expr(c, r, ir, real):
+    if r.get("counters") is None and r.get("result") == "ok":
+        # the hooks are not compiled in (the tree does not build with the guard on): the counters cannot be compared
+        slow = r.get("gen_us", 0) > 2_000_000
+        c["note"] = "no counters: " + HOOKS.get("note", "")[:300]
+        return "[wf %s; false; %s]" % (ir, "false" if slow else "true")
     walks, visits = (r.get("counters") or [0, 0])
     # 'well under a second': the unchanged code needs ~10 ms for every case of these families; the counters decide for the two
     # modelled traversals, wall-clock catches super-linear behaviour anywhere else in the generator
     slow = r.get("gen_us", 0) > 2_000_000
-    return ('[wf %s; (%d <=? N.of_nat (stage_walks %s))%%N && (%d <=? N.of_nat (type_visits %s))%%N; '
+    # (a): the real traversals do at most the work of the model's (fewer = better memoisation is fine), and the hooks are
+    # alive: a counter of 0 where the model walks something means the hook calls are gone
+    alive = "(negb (%d =? 0)%%N || (N.of_nat (stage_walks %s) =? 0)%%N) && (negb (%d =? 0)%%N || (N.of_nat (type_visits %s) =? 0)%%N)" % (walks, ir, visits, ir)
+    return ('[wf %s; (%d <=? N.of_nat (stage_walks %s))%%N && (%d <=? N.of_nat (type_visits %s))%%N && %s; '
             'C20_ok %s %d%%N %d%%N && %s]'
-            % (ir, walks, ir, visits, ir, ir, walks, visits, "false" if slow else "true"))
+            % (ir, walks, ir, visits, ir, alive, ir, walks, visits, "false" if slow else "true"))
 
 
 def nontrivial(c, r):
